@@ -17,6 +17,12 @@ def main(ctx):
     J.append({'mod': 'vf.harness.c10', 'fn': 'median', 'mode': 'sym', 'args': {'R': 3, 'C': 206, 'stripe': [1, 150, 151], 'invalid_upto': 104, 'cap': cap, 'seed': ctx.seed}})
     # one-row cross-checking: a pixel's flags depend on its own row only (rows are processed independently): C07's harness with 3 rows
     J.append({'mod': 'vf.harness.c07', 'fn': 'xcheck_exact', 'mode': 'sym', 'args': {'W': 3, 'dmin': -1, 'dmax': 1, 'H': 3, 'offset': 1, 'cap': cap, 'block': ['KF-C07-outside-mismatch']}})
+    # the same rule on datasets whose column coordinates do not start at 0 (tiles read through a ROI keep the whole-image coordinates)
+    J.append({'mod': 'vf.harness.c07', 'fn': 'xcheck_exact', 'mode': 'sym', 'args': {'W': 3, 'dmin': -1, 'dmax': 1, 'col0': 9, 'cap': cap, 'block': ['KF-C07-outside-mismatch']}})
+    J.append({'mod': 'vf.harness.c07', 'fn': 'xcheck_exact', 'mode': 'sym', 'args': {'W': 2, 'dmin': 0, 'dmax': 2, 'col0': 1, 'cap': cap, 'block': ['KF-C07-outside-mismatch']}})
+    # bilateral filter: a map straddling its 50-pixel blocks agrees with a single-block crop (position on the block grid does not matter)
+    J.append({'mod': 'vf.harness.c10', 'fn': 'bilateral_blocks', 'mode': 'sym', 'args': {'axis': 1, 'N': 53, 'lo': 47, 'hi': 53, 'cap': cap, 'seed': ctx.seed}})
+    J.append({'mod': 'vf.harness.c10', 'fn': 'bilateral_blocks', 'mode': 'sym', 'args': {'axis': 0, 'N': 104, 'lo': 49, 'hi': 55, 'invalid_upto': 48, 'cap': cap, 'seed': ctx.seed}})
     if not ctx.quick:
         for c0 in range(0, 3):
             loc(W=8, crop=[c0, c0 + 6], dmin=-1, dmax=1); loc(W=8, crop=[c0, c0 + 6], dmin=1, dmax=2, method='census')
@@ -36,7 +42,8 @@ def main(ctx):
                               '(tile) of it inside one symbolic execution; for every pixel whose dependency cone (window radius, extended by the disparity '
                               'interval along columns) lies inside the crop z3 decides identical costs, disparity and flags; crops starting at various '
                               'columns/rows, with the original coordinates kept (ROI style) or restarted at 0, positive / negative / mixed intervals, masks; '
-                              'vertical flip of both images flips the outputs; block-grid independence of the median filter with fully invalid blocks')
+                              'vertical flip of both images flips the outputs; block-grid independence of the median filter with fully invalid blocks and of the '
+                              'bilateral filter (50-pixel blocks); cross-checking on datasets whose column coordinates do not start at 0')
     ctx.assumptions += ['C13: integer radiometry (exact domain); SAD/census + wta (+ 3x3 median); cbca, bilateral, refinement and cross-checking are covered '
                         'through their own per-pixel / per-row harnesses (C11, C10, C06, C07), not relationally']
 
